@@ -110,6 +110,10 @@ def args_tour(crate):
             items.append(F("k%d_%s" % (n, kind), args=(kind, vals), bencher=(n % 2 == 0)))
     items.append(F("gen_args", types=[0, 1, 6], args=("vec_i", [3, 1, 2]), bencher=True))
     items.append(F("gen_cs_args", consts=("L", "i", [5, 50]), args=("arr_str", ["p", "q", "r"])))
+    # inline const literals written with separators / radix prefixes / leading zeros / suffixes: the row label is the value's rendering
+    items.append(F("gen_cs_spell", consts=("L", "i", [1000, 512, 16, 15, 7, 5], ["1_000", "0x200", "0b1_0000", "0o17", "007", "5i64"]),
+                   args=("arr_i", [1, 2])))
+    items.append(F("gen_cs_spell_t", types=[0, 6], consts=("L", "u", [4096, 10], ["0x1000", "1_0"]), const_first=True))
     items.append(F("gen_both_args", types=[2, 7], consts=("X", "u", [1, 2, 3]), const_first=True, args=("range", [0, 1])))
     items.append(M("grp", [F("inner_args", args=("arr_i", [10, 9, 1, 100, 2]))], group=dict(name="Grp", opts=dict(sample_count=2))))
     return P.Prog(crate, items)
